@@ -3,11 +3,13 @@ package main
 import (
 	"fmt"
 	"math/rand"
+	"regexp"
 	"strconv"
 	"strings"
 	"time"
 
 	"github.com/internetarchive/Zeno/internal/pkg/config"
+	"github.com/internetarchive/Zeno/internal/pkg/postprocessor/domainscrawl"
 	"github.com/internetarchive/Zeno/verifharness/origin"
 	"github.com/internetarchive/Zeno/verifharness/vh"
 )
@@ -38,7 +40,7 @@ func c07(args []string) error {
 	variant := args[2]
 	n, _ := strconv.Atoi(args[3])
 	disabled := []string{}
-	captureAlt, disableAssets := false, false
+	captureAlt, disableAssets, domains := false, false, false
 	maxHops := 1
 	switch variant {
 	case "B":
@@ -47,6 +49,12 @@ func c07(args []string) error {
 		disableAssets = true
 	case "D":
 		disabled, maxHops = []string{"script", "link", "source", "video", "audio"}, 0
+	case "E": // one tag disabled alone
+		disabled = []string{"video"}
+	case "F": // a domains crawl on the first host: pages on it are followed without counting hops, the rest within the limit
+		domains = true
+	case "G":
+		disabled = []string{"audio", "img"}
 	}
 	run, err := NewRun(args[0], args[1], 2, func(c *config.Config) {
 		c.WorkersCount, c.MaxConcurrentAssets = 3, 4
@@ -58,7 +66,12 @@ func c07(args []string) error {
 	if err != nil {
 		return err
 	}
-	run.tr.Emit(map[string]any{"ev": "c07.cfg", "variant": variant, "disabled": disabled, "capture_alternate": captureAlt, "disable_assets": disableAssets, "max_hops": maxHops})
+	if domains {
+		if err := domainscrawl.AddElements([]string{"^https?://" + regexp.QuoteMeta(run.org.Hosts[0]) + "/"}); err != nil {
+			return err
+		}
+	}
+	run.tr.Emit(map[string]any{"ev": "c07.cfg", "domains_crawl": domains, "variant": variant, "disabled": disabled, "capture_alternate": captureAlt, "disable_assets": disableAssets, "max_hops": maxHops})
 	r := vh.Rand(int64(700 + int(variant[0])))
 	png := func(seed int) origin.Resp { return okImage(seed) }
 	run.org.Dynamic = func(h int, uri string, cnt int) *origin.Resp {
